@@ -417,6 +417,87 @@ impl Check for C12Selects {
     }
 }
 
+// ---------------------------------------------------------------- (set n <expression> e): the value is computed where the set stands
+
+#[derive(Clone, Debug, Serialize, Deserialize)]
+pub struct CaseSetValue {
+    /// input-dependent value expression
+    pub x: Expr,
+    pub e: Expr,
+    pub records: Vec<String>,
+}
+
+pub struct C12SetValue;
+impl Check for C12SetValue {
+    type Case = CaseSetValue;
+    fn name(&self) -> &'static str {
+        "C12.set_value"
+    }
+    fn cases(&self, tier: Tier) -> u64 {
+        tier.pick(20_000, 600_000)
+    }
+    fn strategy(&self, _t: Tier) -> BoxedStrategy<CaseSetValue> {
+        vec(any::<u32>(), 0..300)
+            .prop_map(|tape| {
+                let mut g = Gen::new(&tape, GenCfg { ill: 1, bind_bias: true, exclude: vec!["exec", "trigger", "now", "env", "parse_selection"], ..GenCfg::default() });
+                let env = Env::top();
+                let xk = *g.tape.pick(&[Num, Str, Bool, ArrNum, Int, ObjNum, Any]);
+                // values that exist on the empty input too (default .., type tests, stringify) are the interesting ones
+                let x = match g.tape.below(4) {
+                    0 => Expr::call("default", vec![g.expr(xk, 1, &env), Expr::Lit(g.lit(xk, 1))]),
+                    1 => Expr::call("stringify", vec![g.expr(xk, 1, &env)]),
+                    _ => g.expr(xk, 2, &env),
+                };
+                let mut env2 = env.clone();
+                env2.vars.push(("sv".to_string(), xk));
+                let k = *g.tape.pick(LEAF_KINDS);
+                let e = g.expr(k, 3, &env2);
+                let n = 1 + g.tape.below(3);
+                let records = (0..n).map(|_| g.record()).collect();
+                CaseSetValue { x, e, records }
+            })
+            .boxed()
+    }
+    fn check(&self, c: &CaseSetValue) -> CaseResult {
+        let sp = Spell::CANON;
+        let name = Expr::lit("\"sv\"");
+        let bound = Expr::call("set", vec![name.clone(), c.x.clone(), c.e.clone()]);
+        let mut nt = false;
+        for r in &c.records {
+            // the value of x on this record, as jawk prints it
+            let o = run(&[select_arg(&c.x, "xv", &sp), select_arg(&bound, "a", &sp)], r.as_bytes());
+            if !o.res.is_ok() {
+                return CaseResult::Fail(format!("run failed: {} ({})", o.res.short(), canon(&bound)));
+            }
+            let rows = match rows_of(&o) {
+                Ok(x) => x,
+                Err(e) => return CaseResult::Fail(e),
+            };
+            let Some(row) = rows.first() else { return CaseResult::Fail("no row".into()) };
+            let a = member_text(row, "a");
+            let expect = match row.get("xv") {
+                None => None, // nothing cannot be bound: the whole (set ..) is nothing
+                Some(v) => {
+                    let lit = Expr::Lit(v.to_json());
+                    let o2 = run(&[select_arg(&Expr::call("set", vec![name.clone(), lit, c.e.clone()]), "a", &sp)], r.as_bytes());
+                    if !o2.res.is_ok() {
+                        return CaseResult::Fail(format!("run with the literal value failed: {}", o2.res.short()));
+                    }
+                    match rows_of(&o2) {
+                        Ok(x) => x.first().and_then(|w| member_text(w, "a")),
+                        Err(e) => return CaseResult::Fail(e),
+                    }
+                }
+            };
+            if a != expect {
+                return CaseResult::Fail(format!("(set \"sv\" X e) gives {:?}, but with X's value on this record written as a literal it gives {:?}; X = {} = {:?}; e = {}; record {}", a, expect, canon(&c.x), row.get("xv").map(|v| v.to_json()), canon(&c.e), trunc(r, 300)));
+            }
+            nt |= a.is_some() && mentions(&c.e, Some("sv"), None);
+        }
+        CaseResult::Pass(Info::new(nt).class_if(mentions(&c.e, Some("sv"), None), "uses_variable").class_if(c.x.any(&|x| matches!(x, Expr::Path { .. })), "value_reads_input").weight(2).obs(json!({"x": canon(&c.x), "e": canon(&c.e)})))
+    }
+}
+
 // ---------------------------------------------------------------- --set bindings in every option
 
 #[derive(Clone, Debug, Serialize, Deserialize)]
@@ -526,8 +607,10 @@ pub fn run_all(ctx: &mut Ctx) {
     ctx.rule.push_str(". (preset_positions) --set v=literal and --set @m=expression used inside the expression of --split-by, --filter, --sort-by, --group-by or --select: the run must print exactly what the same option prints with the bindings substituted by hand");
     C12Selects.run(ctx);
     C12Preset.run(ctx);
+    ctx.rule.push_str(". (set_value) (set n X e) with an input-dependent X must equal (set n <the value --select shows for X on that record, as a literal> e), and be nothing when X is nothing");
+    C12SetValue.run(ctx);
 }
 
 pub fn checks() -> Vec<Box<dyn DynCheck>> {
-    vec![Box::new(C12Subst), Box::new(C12Pipe), Box::new(C12Selects), Box::new(C12Preset)]
+    vec![Box::new(C12Subst), Box::new(C12Pipe), Box::new(C12Selects), Box::new(C12Preset), Box::new(C12SetValue)]
 }
